@@ -162,6 +162,22 @@ func (fc *FnCtx) findPkg(name string, tpkg *types.Package) *types.Package {
 		}
 	}
 	for _, p := range fc.eng.Pkgs {
+		// go/packages import graph (types.Package.Imports() can be empty for packages checked from source)
+		for path, ip := range p.Imports {
+			if ip.Types != nil && (pkgAlias(path) == name) {
+				return ip.Types
+			}
+		}
+	}
+	for _, p := range fc.eng.Pkgs {
+		for path, ip := range p.Imports {
+			if ip.Types != nil && ip.Types.Name() == name && tpkg != nil && p.Types == tpkg {
+				_ = path
+				return ip.Types
+			}
+		}
+	}
+	for _, p := range fc.eng.Pkgs {
 		if p.Types.Name() == name || pkgAlias(p.PkgPath) == name {
 			return p.Types
 		}
